@@ -333,7 +333,7 @@ def run(pid, tier):
         events = vlib.read_ndjson(tr)
         bad = [e for e in events if e.get("ev") in ("HostPanic", "Runaway")]
         # (thorough sessions reach several hundred KiB of stack and heap: the states TLC holds need more than the default heap)
-        nev, nseg, st = tc.validate(chk, "vm", SPEC_TR, tr, tag=pid, timeout=5400, parallel=4 if thorough else 5, xmx="12g" if thorough else "4g")
+        nev, nseg, st = tc.validate(chk, "vm", SPEC_TR, tr, tag=pid, timeout=5400, parallel=4 if thorough else 5, groups=16 if thorough else None, xmx="12g" if thorough else "4g")
         chk.add("states", st)
         chk.add("transitions", st)
         steps = [e for e in events if e.get("ev") == "Step"]
